@@ -433,6 +433,18 @@ def run(ses, rep):
                 rep.add(oid, rep.violation({"obligation": "per-file-configuration"}, {"what": what, "observed": v, "replay_kind": "per-file", "run": rec}), f"{what}; {v}")
             else:
                 rep.add(oid, "inconclusive", f"{what}: files told apart by .editorconfig sections still get their own settings on the native build")
+    try:
+        ul = user_locations(ses, rep)
+    except Inconclusive as e:
+        rep.add("user-locations/encodable", "inconclusive", str(e)[:300], nontrivial=False)
+        ul = []
+    if ul:
+        v, rec = replay_user_locations()
+        for oid, what, kind, info in ul:
+            if v:
+                rep.add(oid, rep.violation({"obligation": "user-locations"}, {"what": what, "observed": v, "replay_kind": "user-locations", "run": rec}), f"{what}; {v}")
+            else:
+                rep.add(oid, "inconclusive", f"{what}: every combination of user-level configurations still resolves in the documented order on the native build")
     rep.samples.append({"flagged": [(f[0], f[1]) for f in flagged + routes][:6]})
     if flagged:
         sc, v, rec = battery()
@@ -527,6 +539,95 @@ def per_file_configuration(ses, rep):
     return flagged
 
 
+USER_PROBES = [("XDG_CONFIG_HOME", ""), ("XDG_CONFIG_HOME", "stylua"), ("HOME", ".config"), ("HOME", ".config/stylua")]
+
+
+def user_locations(ses, rep):
+    """search_config_locations probes the four documented user-level directories, in the documented order: read off the function's MIR as the
+    sequence of (environment variable, joined components) in front of each lookup_config_file_in_directory call. A different sequence (or
+    a probe that cannot be read off any more) is left to the user-location replay."""
+    flagged = []
+    funcs = ses.mir("bin", "default")
+    fn = [f for n_, l in funcs.items() for f in l if n_.split("::")[-1] == "search_config_locations" and f.kind == "fn"]
+    if len(fn) != 1:
+        raise Inconclusive("search_config_locations not found")
+    fn = fn[0]
+    from . import c14
+    succ = c14.cfg_succ(fn)
+    order, seen_ = [], set()
+
+    def dfs(b):        # reverse post-order over the non-unwind CFG = an execution-compatible order of the blocks
+        if b in seen_:
+            return
+        seen_.add(b)
+        for c_ in reversed(succ.get(b, [])):
+            dfs(c_)
+        order.append(b)
+    dfs("bb0")
+    order.reverse()
+    consts = lambda s_: [a[1].strip('"') for a in s_[3] if isinstance(a, tuple) and a and a[0] == "const" and isinstance(a[1], str)]
+    # which local holds which path: propagate (env, parts) through Path::new / join / deref / as_ref and plain moves
+    val = {}
+    probes = []
+    for bb in order:
+        for s_ in fn.blocks[bb]:
+            dst = s_[1].local if s_[0] in ("call", "assign") and s_[1] is not None and not s_[1].proj else None
+            if s_[0] == "assign" and dst and isinstance(s_[2], tuple):
+                rv = s_[2]
+                src = rv[-1] if rv[0] == "ref" else (rv[1][1] if rv[0] == "use" and isinstance(rv[1], tuple) and len(rv[1]) > 1 else None)
+                if hasattr(src, "local") and src.local in val:
+                    val[dst] = val[src.local]
+                continue
+            if s_[0] != "call":
+                continue
+            last = canon(s_[2]).split("::")[-1]
+            a0 = s_[3][0][1].local if s_[3] and isinstance(s_[3][0], tuple) and len(s_[3][0]) > 1 and hasattr(s_[3][0][1], "local") else None
+            if last.startswith("var") and consts(s_):
+                val[dst] = (consts(s_)[0], [])
+            elif last == "join" and a0 in val and consts(s_):
+                val[dst] = (val[a0][0], val[a0][1] + [consts(s_)[0]])
+            elif last in ("new", "deref", "as_ref", "as_path", "borrow", "clone", "to_path_buf", "unwrap", "branch") and a0 in val:
+                val[dst] = val[a0]
+            elif last == "lookup_config_file_in_directory":
+                a1 = s_[3][1][1].local if len(s_[3]) > 1 and isinstance(s_[3][1], tuple) and len(s_[3][1]) > 1 and hasattr(s_[3][1][1], "local") else None
+                e_ = val.get(a1, (None, []))
+                probes.append((e_[0], "/".join(e_[1])))
+    ok = probes == USER_PROBES
+    r, m = ses.obligation("user-locations/probes-in-the-documented-order", [], z3.BoolVal(not ok), f"probes read off the MIR: {probes}")
+    if r == "sat":
+        flagged.append(("user-locations/probes-in-the-documented-order", f"search_config_locations probes {probes}, documented: {USER_PROBES}", "user-locations", {}))
+    return flagged
+
+
+def replay_user_locations():
+    """every combination of the four user-level locations holding / not holding a configuration (directories present either way):
+    the first of $XDG_CONFIG_HOME, $XDG_CONFIG_HOME/stylua, $HOME/.config, $HOME/.config/stylua that has one wins"""
+    binp = common.native_build("default")
+    locs = [".xdg", ".xdg/stylua", ".config", ".config/stylua"]
+    for mask in range(1, 16):
+        for xdg_exists in (True, False):
+            files = {"proj/a.lua": SRC}
+            want = None
+            for i, loc in enumerate(locs):
+                if not xdg_exists and loc.startswith(".xdg"):
+                    continue
+                files[f"{loc}/.keep"] = ""
+                if mask >> i & 1:
+                    files[f"{loc}/stylua.toml"] = f'indent_type = "Spaces"\nindent_width = {i + 5}\n'
+                    if want is None:
+                        want = OUT(" " * (i + 5))
+            if want is None:
+                want = OUT("\t")
+            for argv, stdin in ((["--search-parent-directories", "proj/a.lua"], None), (["--search-parent-directories", "--stdin-filepath", "proj/a.lua", "-"], SRC)):
+                r = clireplay.run_cli(binp, files, argv, stdin=stdin)
+                got = r["out"] if stdin else r["after"]["proj/a.lua"][0].decode()
+                if got != want:
+                    have = [l for i, l in enumerate(locs) if mask >> i & 1 and (xdg_exists or not l.startswith(".xdg"))]
+                    return (f"configurations in {have} ($XDG_CONFIG_HOME {'exists' if xdg_exists else 'does not exist'}): {argv} gives {got!r}, the documented order asks for {want!r}",
+                            {"argv": argv, "files": sorted(files)})
+    return None, {}
+
+
 def replay_per_file():
     """two files of one directory that an .editorconfig tells apart by name, in one run, in both orders and through the directory"""
     binp = common.native_build("default")
@@ -544,6 +645,9 @@ def replay_per_file():
 
 def fallback(rep):
     """kernels undecided: the configuration batteries are run; only a failing concrete oracle is reported"""
+    v, rec = replay_user_locations()
+    if v:
+        rep.add("battery/user-locations", rep.violation({"obligation": "battery-after-undecided-kernel", "scenario": "user-locations"}, {"what": "kernel undecided; user-level locations", "observed": v, "run": rec}), v)
     v, rec = replay_per_file()
     if v:
         rep.add("battery/per-file", rep.violation({"obligation": "battery-after-undecided-kernel", "scenario": "per-file"}, {"what": "kernel undecided; per-file configuration replay", "observed": v, "run": rec}), v)
@@ -559,6 +663,8 @@ def replay(path):
     sc, v, rec = battery()
     if not v:
         v, _ = replay_per_file()
+    if not v:
+        v, _ = replay_user_locations()
     if not v:
         from .. import cfgorigin
         fails = cfgorigin.battery(common.native_build("default"))
